@@ -289,6 +289,8 @@ def accepts(c):
     """does the implementation's answer agree with what the Lean side claims?"""
     if c.model == "na":
         return True
+    if c.op.startswith("cli") and c.model in ("unmodelled", "bad-args"):
+        return True       # a command line the expectations do not cover: nothing is claimed
     if c.op == "distfail":
         return c.impl in (c.model or "").split("|")
     return c.model == c.impl
